@@ -207,6 +207,13 @@ type OnlyM struct {
 
 func (o OnlyM) MarshalJSON() ([]byte, error) { return []byte(`"only-m"`), nil }
 
+// a comparable struct whose plain JSON does not identify it (a field is left out): as a map
+// key type it belongs to finding F-C12j
+type KT struct {
+	A int
+	B int `json:"-"`
+}
+
 // a comparable struct used as a map key type (keys are written as plain JSON)
 type KS struct {
 	A int
@@ -217,7 +224,7 @@ var fixedStructs = []struct {
 	rt  reflect.Type
 	reg bool
 }{{reflect.TypeOf(Empty{}), true}, {reflect.TypeOf(Node{}), true}, {reflect.TypeOf(Unreg{}), false}, {reflect.TypeOf(Rec{}), true},
-	{reflect.TypeOf(Holder{}), true}, {reflect.TypeOf(Inner{}), true}, {reflect.TypeOf(Outer{}), true}, {reflect.TypeOf(KS{}), true}, {reflect.TypeOf(OnlyM{}), true}}
+	{reflect.TypeOf(Holder{}), true}, {reflect.TypeOf(Inner{}), true}, {reflect.TypeOf(Outer{}), true}, {reflect.TypeOf(KS{}), true}, {reflect.TypeOf(OnlyM{}), true}, {reflect.TypeOf(KT{}), true}}
 
 // container types registered under a name (so that they may be element types)
 var regContainers = []struct {
@@ -274,6 +281,7 @@ func init() {
 	must(compose.RegisterSerializableType[Outer]("c12_s1006"))
 	must(compose.RegisterSerializableType[KS]("c12_s1007"))
 	must(compose.RegisterSerializableType[OnlyM]("c12_s1008"))
+	must(compose.RegisterSerializableType[KT]("c12_s1009"))
 	must(compose.RegisterSerializableType[NLvl]("c12_n10"))
 	must(compose.RegisterSerializableType[NTk]("c12_n11"))
 	must(compose.RegisterSerializableType[alt.NInt]("c12_n12"))
@@ -508,7 +516,21 @@ func (t *Ty) ext() bool {
 	case "slice", "array":
 		return t.E.ext()
 	case "map":
-		return t.Key.ext() || t.E.ext() || t.Key.K != "base" && t.Key.K != "named"
+		return t.Key.ext() || t.E.ext() || !t.Key.keyable()
+	}
+	return false
+}
+
+// keyable: a map key type of the model's universe: a basic kind, a named basic type, an array
+// of such, the fixed comparable struct KS (fields of basic kind, no json tags)
+func (t *Ty) keyable() bool {
+	switch t.K {
+	case "base", "named":
+		return true
+	case "array":
+		return t.E.keyable()
+	case "struct":
+		return t.N == fixedBase+7
 	}
 	return false
 }
@@ -1012,8 +1034,9 @@ func unregisteredDefinedContainer(t reflect.Type) bool {
 	return false
 }
 
-// keyUntyped: a map key type with an interface or pointer type in it (F-C12j): the plain JSON
-// of such a key does not carry the dynamic type / the identity of the pointer
+// keyUntyped: a map key type with an interface or pointer type in it, or a struct with a field
+// that its JSON leaves out (F-C12j): the plain JSON of such a key does not carry the dynamic
+// type / the identity of the pointer / the whole key
 func keyUntyped(t reflect.Type) bool {
 	switch t.Kind() {
 	case reflect.Interface, reflect.Ptr:
@@ -1022,8 +1045,9 @@ func keyUntyped(t reflect.Type) bool {
 		return keyUntyped(t.Elem())
 	case reflect.Struct:
 		for i := 0; i < t.NumField(); i++ {
-			if keyUntyped(t.Field(i).Type) {
-				return true
+			f := t.Field(i)
+			if keyUntyped(f.Type) || f.PkgPath != "" || strings.HasPrefix(f.Tag.Get("json"), "-") {
+				return true // a field the plain JSON of the key leaves out
 			}
 		}
 	}
@@ -1725,7 +1749,7 @@ func runCase(c *Case) (res lib.Result) {
 				res.Oracle = "the value a pointer to an interface points to came back as a generic JSON value"
 				res.Sig = "ptr-to-interface-untyped"
 			case equiv(rv, ov, eqMapKey):
-				res.Oracle = "keys of a map whose key type is an interface / pointer type came back as generic JSON values or collapsed"
+				res.Oracle = "keys of a map whose key type is an interface / pointer type (or a struct whose JSON leaves a field out) came back as generic JSON values or collapsed"
 				res.Sig = "map-key-untyped"
 			}
 		}
@@ -1864,8 +1888,8 @@ func (g *gen) keyType() *Ty {
 		return &Ty{K: "base", B: r.Pick([]string{"float64", "float32", "bool"})}
 	case 7:
 		if r.Chance(1, 2) {
-			// key kinds outside the model's universe that the serialiser supports: a registered
-			// comparable struct type, a registered array type (written as plain JSON)
+			// a registered comparable struct type, a registered array type as key type (the key
+			// is written as its plain JSON)
 			if r.Chance(1, 2) {
 				return &Ty{K: "struct", N: fixedBase + 7}
 			}
@@ -2410,6 +2434,9 @@ func (g *gen) badLeaf() *Ty {
 		if r.Chance(1, 3) {
 			return &Ty{K: "map", Key: &Ty{K: "ptr", E: &Ty{K: "base", B: "int"}}, E: g.basicType()}
 		}
+		if r.Chance(1, 3) {
+			return &Ty{K: "map", Key: &Ty{K: "struct", N: fixedBase + 9}, E: g.basicType()}
+		}
 		return &Ty{K: "map", Key: &Ty{K: "any"}, E: g.basicType()}
 	default: // non-finite-float
 		return []*Ty{{K: "base", B: "float64"}, {K: "base", B: "float32"}, {K: "named", N: 2}, {K: "named", N: 6}}[r.Intn(4)]
@@ -2420,7 +2447,12 @@ func (g *gen) badLeaf() *Ty {
 func (g *gen) wrap(t *Ty, v *V) (*Ty, *V) {
 	r := g.r
 	concrete := t.K != "iface" && t.K != "any"
-	elemOK := t.K != "slice" && t.K != "map" && t.K != "array" && t.K != "ncont" || isRegContainer(t) // may be an element type as it is
+	b := t
+	for b.K == "ptr" {
+		b = b.E
+	}
+	// may be an element type as it is: the encoder looks the pointer-stripped type up
+	elemOK := b.K != "slice" && b.K != "map" && b.K != "array" && b.K != "ncont" || isRegContainer(b)
 	if t.K == "ptr" && (t.E.K == "any" || t.E.K == "iface") {
 		elemOK = false // the encoder looks up the pointer-stripped element type: an interface type, fine, but keep it simple
 	}
